@@ -135,11 +135,160 @@ fn second_cfgs(n: usize) -> Vec<AnyCfg> {
         }
         v.push(AnyCfg::S(c));
     }
+    let mut c = RunCfg::plain(Api { kind: Kind::TryForEach, mutable: true, with: true }, n);
+    c.rev = true;
+    v.push(AnyCfg::S(c));
     v.push(AnyCfg::C(CCfg::plain(SApi::Stream)));
     let mut s = CCfg::plain(SApi::StreamWith);
     s.rev = true;
     v.push(AnyCfg::C(s));
     v
+}
+
+/// DFS tree of `cfg` on fresh graphs with at most `dev` non-default answers.
+fn tree_dev(spec: &Spec, cfg: &AnyCfg, dev: usize) -> Vec<(Vec<u16>, u64)> {
+    let mut out = vec![];
+    let mut stack: Vec<Vec<u16>> = vec![vec![]];
+    while let Some(p) = stack.pop() {
+        let pl = p.len();
+        let mut g = build(spec);
+        let r = run_any(&mut g, cfg, p);
+        let key: Vec<u16> = r.taken.iter().map(|t| t.c).collect();
+        if crate::exec::deviations(&r.taken[..pl.min(r.taken.len())]) + 1 <= dev {
+            for i in pl..r.taken.len() {
+                for a in 0..r.taken[i].k {
+                    if a != r.taken[i].c {
+                        let mut q = key[..i].to_vec();
+                        q.push(a);
+                        stack.push(q);
+                    }
+                }
+            }
+        }
+        out.push((key, r.sig));
+    }
+    out
+}
+
+/// Histories on larger graphs (size thresholds): every first run on its default schedule,
+/// completed or dropped at a quarter / half / three quarters of its choices, then every second
+/// run with <= 1 deviation, compared with a fresh graph.
+fn run_c15_large(tier: &str, deadline: Instant, total: &mut Stats, log: &mut Vec<Value>) {
+    use crate::graphs::{family_spec, Family};
+    let ks: &[usize] = if tier == "thorough" { &[7, 9, 12, 17, 24, 33, 40, 65] } else { &[9, 17, 33] };
+    let mut specs = vec![];
+    for &k in ks {
+        specs.push(family_spec(Family::Chain, k));
+        specs.push(family_spec(Family::Comb, k / 2));
+        specs.push(family_spec(Family::FanPair, k / 2));
+        specs.push(family_spec(Family::BinTree, k));
+    }
+    specs.extend(crate::props_build::arithmetic_specs(if tier == "thorough" { &[9, 10, 12, 20] } else { &[9, 12] }, false).into_iter().map(|(_, s)| s).step_by(7));
+    let mut items = vec![];
+    for s in 0..specs.len() {
+        let nf = first_cfgs(specs[s].n).len();
+        for a in 0..nf {
+            items.push((s, a));
+        }
+    }
+    let t0 = Instant::now();
+    let mut st = Stats::default();
+    let specs_ref = &specs;
+    let capped = par_for(
+        items.len(),
+        deadline,
+        Stats::default,
+        |i, local: &mut Stats| {
+            let (si, ai) = items[i];
+            let spec = &specs_ref[si];
+            let n = spec.n;
+            let mut firsts = first_cfgs(n);
+            let c1 = firsts.swap_remove(ai);
+            // the stream configurations of the first-run menu explore every drop point; on large
+            // graphs they follow their default behaviour only
+            let c1 = match c1 {
+                AnyCfg::S(mut c) => {
+                    c.imm_choice = false;
+                    AnyCfg::S(c)
+                }
+                AnyCfg::C(mut c) => {
+                    c.drop_stream = false;
+                    AnyCfg::C(c)
+                }
+            };
+            let seconds: Vec<AnyCfg> = second_cfgs(n)
+                .into_iter()
+                .map(|c| match c {
+                    AnyCfg::S(mut c) => {
+                        c.imm_choice = false;
+                        AnyCfg::S(c)
+                    }
+                    o => o,
+                })
+                .collect();
+            local.jobs += 1;
+            // length of the first run's default choice list
+            let len1 = {
+                let mut g = build(spec);
+                run_any(&mut g, &c1, vec![]).taken.len()
+            };
+            let aborts: Vec<Option<usize>> = match &c1 {
+                AnyCfg::S(_) => vec![None, Some(len1 / 4), Some(len1 / 2), Some(3 * len1 / 4)],
+                AnyCfg::C(_) => vec![None],
+            };
+            for c2 in &seconds {
+                let ref2 = tree_dev(spec, c2, if n <= 20 { 1 } else { 0 });
+                for &abort in &aborts {
+                    if Instant::now() > deadline {
+                        local.capped = true;
+                        return;
+                    }
+                    let c1a = match &c1 {
+                        AnyCfg::S(c) => {
+                            let mut c = c.clone();
+                            c.abort_at = abort;
+                            AnyCfg::S(c)
+                        }
+                        o => o.clone(),
+                    };
+                    let mut g = build(spec);
+                    let r1 = run_any(&mut g, &c1a, vec![]);
+                    local.transitions += r1.taken.len() as u64;
+                    for (key2, want) in &ref2 {
+                        let r2 = run_any(&mut g, c2, key2.clone());
+                        local.execs += 1;
+                        local.transitions += r2.taken.len() as u64;
+                        if r2.sig != *want {
+                            let mut gf = build(spec);
+                            let fresh = run_any(&mut gf, c2, key2.clone());
+                            local.add_viol(ViolRec {
+                                prop: 15,
+                                msg: format!("run on a reused graph differs from the same run on a fresh graph (earlier run: {} aborted at {:?})", c1.short(), abort),
+                                spec: spec.clone(),
+                                cfg: JobCfg::H(
+                                    format!("history first=[{}] second=[{}]", c1.short(), c2.short()),
+                                    json!({"first": c1a.json(), "first_choices": Vec::<u16>::new(), "first_abort_at": abort, "second": c2.json(), "second_choices": key2}),
+                                ),
+                                choices: key2.clone(),
+                                trace: vec![],
+                                result: format!("reused: {} | fresh: {}", &r2.text[..r2.text.len().min(600)], &fresh.text[..fresh.text.len().min(600)]),
+                            });
+                            break;
+                        }
+                    }
+                }
+            }
+            local.states += 1;
+            local.distinct_traces += 1;
+            local.nontrivial += 1;
+        },
+        |l| st.merge(l),
+    );
+    st.capped |= capped;
+    let label = format!("larger graphs (chains, combs, two-depth fans, trees for k in {ks:?}, arithmetic DAGs): {} graphs x 15 first runs on their default schedule (completed, or dropped at 1/4, 1/2, 3/4) x 9 second runs (<= 1 deviation up to 20 functions)", specs.len());
+    log.push(json!({"space": label, "pairs_compared": st.execs, "completed": !st.capped, "wall_s": t0.elapsed().as_secs_f64()}));
+    eprintln!("  [{label}] pairs={} viol={} {}{:.1}s", st.execs, st.viol_total, if st.capped { "CAPPED " } else { "" }, t0.elapsed().as_secs_f64());
+    total.merge(st);
 }
 
 pub fn run_c15(tier: &str, deadline: Instant, total: &mut Stats, log: &mut Vec<Value>) {
@@ -264,9 +413,10 @@ pub fn run_c15(tier: &str, deadline: Instant, total: &mut Stats, log: &mut Vec<V
         total.merge(st);
         if Instant::now() > deadline {
             total.capped = true;
-            break;
+            return;
         }
     }
+    run_c15_large(tier, deadline, total, log);
 }
 
 // ---------------------------------------------------------------------------
@@ -338,9 +488,10 @@ struct SideRes {
     text: String,
 }
 
-struct PairRes {
-    a: SideRes,
-    b: SideRes,
+struct MultiRes {
+    sides: Vec<SideRes>,
+    /// positions in `global` of the "which run acts next" choices
+    top: Vec<usize>,
     global: Vec<Taken>,
     switches: usize,
     overlapped: bool,
@@ -365,84 +516,96 @@ impl AnyDriver<'_, '_> {
     }
 }
 
-/// Runs A and B on one `&FnGraph`, all decisions (which run acts next, and each run's own
-/// environment answers) drawn from one choice list.
-fn run_pair(g: &FnGraph<Node>, ca: &AnyCfg, cb: &AnyCfg, prefix: Vec<u16>, switch_bound: usize) -> Result<PairRes, String> {
+/// Runs several calls on one `&FnGraph`; all decisions (which run acts next, and each run's own
+/// environment answers) are drawn from one choice list. A run starts when it is first chosen.
+fn run_multi(g: &FnGraph<Node>, cfgs: &[&AnyCfg], prefix: Vec<u16>, switch_bound: usize) -> Result<MultiRes, String> {
     let n = g.graph.node_count();
+    let k = cfgs.len();
     let ch: ChooserRef = Chooser::shared(prefix);
-    let mk_sh = |c: &AnyCfg| {
-        let (mut fail, imm) = match c {
-            AnyCfg::S(c) => (c.fail.clone(), c.imm_choice),
-            AnyCfg::C(_) => (vec![], false),
-        };
-        fail.resize(n, false);
-        Shared::new(n, fail, ch.clone(), imm, false)
-    };
-    let (sha, shb) = (mk_sh(ca), mk_sh(cb));
-    // one interrupt channel per side and per engine kind (only one of each pair is used)
-    let (itxa, mut irxa) = mpsc::channel::<InterruptSignal>(4);
-    let (itxb, mut irxb) = mpsc::channel::<InterruptSignal>(4);
-    let (itxa2, mut irxa2) = mpsc::channel::<InterruptSignal>(4);
-    let (itxb2, mut irxb2) = mpsc::channel::<InterruptSignal>(4);
+    let shs: Vec<Sh> = cfgs
+        .iter()
+        .map(|c| {
+            let (mut fail, imm) = match c {
+                AnyCfg::S(c) => (c.fail.clone(), c.imm_choice),
+                AnyCfg::C(_) => (vec![], false),
+            };
+            fail.resize(n, false);
+            Shared::new(n, fail, ch.clone(), imm, false)
+        })
+        .collect();
+    // one interrupt channel per run and per engine kind (only one of each pair is used)
+    let mut chan_s: Vec<(mpsc::Sender<InterruptSignal>, mpsc::Receiver<InterruptSignal>)> = (0..k).map(|_| mpsc::channel(4)).collect();
+    let mut chan_c: Vec<(mpsc::Sender<InterruptSignal>, mpsc::Receiver<InterruptSignal>)> = (0..k).map(|_| mpsc::channel(4)).collect();
+    let senders_s: Vec<mpsc::Sender<InterruptSignal>> = chan_s.iter().map(|c| c.0.clone()).collect();
     let r = catch_quiet(|| {
-        let mut fa: Option<BoxFut<'_>> = match ca {
-            AnyCfg::S(c) => Some(shared_fut(g, c, &sha, &mut irxa)),
-            AnyCfg::C(_) => None,
-        };
-        let mut fb: Option<BoxFut<'_>> = match cb {
-            AnyCfg::S(c) => Some(shared_fut(g, c, &shb, &mut irxb)),
-            AnyCfg::C(_) => None,
-        };
-        let mut da = match ca {
-            AnyCfg::S(c) => AnyDriver::S(Driver::new(Pin::new(fa.as_mut().unwrap()), &sha, c, if c.strat == Strat::Non { None } else { Some(&itxa) })),
-            AnyCfg::C(c) => AnyDriver::C(crate::engine_c::CDriver::new(g, c, &mut irxa2, itxa2.clone(), ch.clone())),
-        };
-        let mut db = match cb {
-            AnyCfg::S(c) => AnyDriver::S(Driver::new(Pin::new(fb.as_mut().unwrap()), &shb, c, if c.strat == Strat::Non { None } else { Some(&itxb) })),
-            AnyCfg::C(c) => AnyDriver::C(crate::engine_c::CDriver::new(g, c, &mut irxb2, itxb2.clone(), ch.clone())),
-        };
-        let (mut ra, mut rb): (Option<AnyEnd>, Option<AnyEnd>) = (None, None);
+        let mut futs: Vec<Option<BoxFut<'_>>> = chan_s
+            .iter_mut()
+            .enumerate()
+            .map(|(i, c)| match cfgs[i] {
+                AnyCfg::S(cfg) => Some(shared_fut(g, cfg, &shs[i], &mut c.1)),
+                AnyCfg::C(_) => None,
+            })
+            .collect();
+        let mut drivers: Vec<AnyDriver<'_, '_>> = futs
+            .iter_mut()
+            .zip(chan_c.iter_mut())
+            .enumerate()
+            .map(|(i, (f, cc))| match cfgs[i] {
+                AnyCfg::S(cfg) => AnyDriver::S(Driver::new(Pin::new(f.as_mut().unwrap()), &shs[i], cfg, if cfg.strat == Strat::Non { None } else { Some(&senders_s[i]) })),
+                AnyCfg::C(cfg) => AnyDriver::C(crate::engine_c::CDriver::new(g, cfg, &mut cc.1, cc.0.clone(), ch.clone())),
+            })
+            .collect();
+        let mut ends: Vec<Option<AnyEnd>> = (0..k).map(|_| None).collect();
+        let mut top: Vec<usize> = vec![];
         let mut cur = 0usize;
         let mut switches = 0usize;
         let mut overlapped = false;
-        let mut stepped = [false, false];
+        let mut stepped = vec![false; k];
         loop {
-            let active = [ra.is_none(), rb.is_none()];
-            if !active[0] && !active[1] {
+            let active: Vec<usize> = (0..k).filter(|&i| ends[i].is_none()).collect();
+            if active.is_empty() {
                 break;
             }
-            if active[0] && active[1] {
-                if stepped[0] && stepped[1] {
-                    overlapped = true;
-                }
-                if switches < switch_bound {
-                    // 0 = the current run continues, 1 = the other run acts next
-                    if ch.borrow_mut().choose(2, 0) == 1 {
-                        cur = 1 - cur;
+            if active.iter().filter(|&&i| stepped[i]).count() >= 2 {
+                overlapped = true;
+            }
+            if ends[cur].is_none() {
+                let others: Vec<usize> = active.iter().copied().filter(|&i| i != cur).collect();
+                if !others.is_empty() && switches < switch_bound {
+                    // 0 = the current run continues, j = the j-th other active run acts next
+                    top.push(ch.borrow().taken.len());
+                    let c = ch.borrow_mut().choose(others.len() + 1, 0);
+                    if c > 0 {
+                        cur = others[c - 1];
                         switches += 1;
                     }
                 }
-            } else if !active[cur] {
-                cur = 1 - cur;
+            } else if active.len() == 1 {
+                cur = active[0];
+            } else {
+                // the current run is over: which of the remaining ones goes on (not a switch)
+                // default: the run with the highest index (typically one that has not started yet)
+                top.push(ch.borrow().taken.len());
+                let c = ch.borrow_mut().choose(active.len(), active.len() - 1);
+                cur = active[c];
             }
             stepped[cur] = true;
             // a panic inside one run is that run's result (and must happen alone as well)
-            let r = if cur == 0 { catch_quiet(|| da.step()) } else { catch_quiet(|| db.step()) };
-            let is_s = matches!(if cur == 0 { &da } else { &db }, AnyDriver::S(_));
-            let r = match r {
+            let is_s = matches!(&drivers[cur], AnyDriver::S(_));
+            let d = &mut drivers[cur];
+            let r = match catch_quiet(|| d.step()) {
                 Ok(r) => r,
                 Err(m) => Some(if is_s { AnyEnd::S(DriveRes { status: Status::Panic(m), out: None, polls: 0, states: vec![] }) } else { AnyEnd::C(Status::Panic(m), None) }),
             };
-            if cur == 0 {
-                ra = r;
-            } else {
-                rb = r;
+            if r.is_some() {
+                ends[cur] = r;
             }
         }
-        let finish = |end: AnyEnd, d: &mut AnyDriver<'_, '_>, sh: &Sh| -> SideRes {
-            match (end, d) {
+        let mut sides = vec![];
+        for i in 0..k {
+            let side = match (ends[i].take().unwrap(), &mut drivers[i]) {
                 (AnyEnd::S(dr), _) => {
-                    let r = to_runres(dr, sh);
+                    let r = to_runres(dr, &shs[i]);
                     SideRes { sig: sig_s(&r), choices: r.taken.iter().map(|t| t.c).collect(), text: format!("{:?} -> {:?} {:?}", r.ev, r.status, r.out) }
                 }
                 (AnyEnd::C(status, end), AnyDriver::C(cd)) => {
@@ -451,19 +614,18 @@ fn run_pair(g: &FnGraph<Node>, ca: &AnyCfg, cb: &AnyCfg, prefix: Vec<u16>, switc
                     SideRes { sig: sig_c(&r), choices: r.taken.iter().map(|t| t.c).collect(), text: format!("{:?} -> {:?} {:?}", r.ev, r.status, r.end) }
                 }
                 _ => unreachable!(),
-            }
-        };
-        let a = finish(ra.unwrap(), &mut da, &sha);
-        let b = finish(rb.unwrap(), &mut db, &shb);
-        (a, b, switches, overlapped)
+            };
+            sides.push(side);
+        }
+        (sides, switches, overlapped, top)
     });
     match r {
-        Ok((a, b, switches, overlapped)) => {
+        Ok((sides, switches, overlapped, top)) => {
             let global = ch.borrow().taken.clone();
             if ch.borrow().diverged {
-                return Err("replay divergence in pair run".into());
+                return Err("replay divergence in a simultaneous run".into());
             }
-            Ok(PairRes { a, b, global, switches, overlapped })
+            Ok(MultiRes { sides, top, global, switches, overlapped })
         }
         Err(m) => Err(m),
     }
@@ -509,6 +671,93 @@ fn c20_cfgs(n: usize) -> Vec<AnyCfg> {
     v
 }
 
+/// One set of simultaneous runs: full DFS over the shared choice list within the bounds,
+/// differential oracle per run.
+fn explore_multi(spec: &Spec, cfgs: &[&AnyCfg], sb: usize, devb: Option<usize>, inner_dev: bool, deadline: Instant, local: &mut Stats) {
+    local.jobs += 1;
+    let mut sigs = std::collections::HashSet::new();
+    let mut nontrivial = std::collections::HashSet::new();
+    let mut stack: Vec<Vec<u16>> = vec![vec![]];
+    let mut cnt = 0u64;
+    let names: Vec<String> = cfgs.iter().map(|c| c.short()).collect();
+    let title = format!("simultaneous {}", names.iter().enumerate().map(|(i, n)| format!("{}=[{n}]", (b'A' + i as u8) as char)).collect::<Vec<_>>().join(" "));
+    let detail = |which: &str| json!({"runs": cfgs.iter().map(|c| c.json()).collect::<Vec<_>>(), "switch_bound": sb, "which": which});
+    let template = if spec.n > 8 { Some(build(spec)) } else { None };
+    while let Some(p) = stack.pop() {
+        cnt += 1;
+        if cnt % 64 == 0 && Instant::now() > deadline {
+            local.capped = true;
+            break;
+        }
+        let pl = p.len();
+        let g = template.as_ref().map(|t| t.clone()).unwrap_or_else(|| build(spec));
+        let mr = match run_multi(&g, cfgs, p.clone(), sb) {
+            Ok(r) => r,
+            Err(m) => {
+                local.add_viol(ViolRec {
+                    prop: 20,
+                    msg: format!("simultaneous runs: panic / divergence outside a step: {m}"),
+                    spec: spec.clone(),
+                    cfg: JobCfg::H(title.clone(), detail("-")),
+                    choices: p.clone(),
+                    trace: vec![],
+                    result: String::new(),
+                });
+                continue;
+            }
+        };
+        local.execs += 1;
+        local.transitions += (mr.global.len() + 1 - pl.max(1)) as u64;
+        local.max_depth = local.max_depth.max(mr.global.len() as u64);
+        let key: Vec<u16> = mr.global.iter().map(|t| t.c).collect();
+        let base_dev = crate::exec::deviations(&mr.global[..pl.min(mr.global.len())]);
+        if devb.map(|d| base_dev + 1 <= d).unwrap_or(true) {
+            for i in pl..mr.global.len() {
+                if !inner_dev && !mr.top.contains(&i) {
+                    continue;
+                }
+                for a in 0..mr.global[i].k {
+                    if a != mr.global[i].c {
+                        let mut q = key[..i].to_vec();
+                        q.push(a);
+                        stack.push(q);
+                    }
+                }
+            }
+        }
+        let sig = hash64(&mr.sides.iter().map(|s| s.sig).collect::<Vec<_>>());
+        sigs.insert(sig);
+        if mr.overlapped {
+            nontrivial.insert(sig);
+            local.count("executions_where_two_or_more_runs_were_in_progress_at_once", 1);
+        }
+        local.max_deviations = local.max_deviations.max(mr.switches as u64);
+        // differential oracle: each projection replayed alone on a fresh graph
+        for (i, r) in mr.sides.iter().enumerate() {
+            let alone = solo(spec, cfgs[i], r.choices.clone());
+            local.recheck += 1;
+            if alone.sig != r.sig {
+                let name = ((b'A' + i as u8) as char).to_string();
+                local.add_viol(ViolRec {
+                    prop: 20,
+                    msg: format!("run {name} behaves differently next to another run than alone under the same environment answers"),
+                    spec: spec.clone(),
+                    cfg: JobCfg::H(title.clone(), detail(&name)),
+                    choices: key.clone(),
+                    trace: vec![],
+                    result: format!("together: {} | alone: {}", r.text, alone.text),
+                });
+            }
+        }
+        if local.samples.len() < 2 && mr.overlapped && mr.switches >= 2 && spec.n <= 4 {
+            local.samples.push(json!({"graph": spec.short(), "runs": names, "choices": key, "traces": mr.sides.iter().map(|s| s.text.clone()).collect::<Vec<_>>()}));
+        }
+    }
+    local.states += sigs.len() as u64;
+    local.distinct_traces += sigs.len() as u64;
+    local.nontrivial += nontrivial.len() as u64;
+}
+
 pub fn run_c20(tier: &str, deadline: Instant, total: &mut Stats, log: &mut Vec<Value>) {
     // (n, switch bound, bound on non-default answers in the whole choice list incl. switches)
     let plans: Vec<(usize, usize, Option<usize>)> = if tier == "thorough" {
@@ -536,83 +785,7 @@ pub fn run_c20(tier: &str, deadline: Instant, total: &mut Stats, log: &mut Vec<V
             Stats::default,
             |i, local: &mut Stats| {
                 let (si, ai, bi) = items[i];
-                let spec = &specs[si];
-                let (ca, cb) = (&cfgs[ai], &cfgs[bi]);
-                local.jobs += 1;
-                let mut sigs = std::collections::HashSet::new();
-                let mut nontrivial = std::collections::HashSet::new();
-                let mut stack: Vec<Vec<u16>> = vec![vec![]];
-                let mut cnt = 0u64;
-                let detail = |which: &str| json!({"a": ca.json(), "b": cb.json(), "switch_bound": sb, "which": which});
-                while let Some(p) = stack.pop() {
-                    cnt += 1;
-                    if cnt % 256 == 0 && Instant::now() > deadline {
-                        local.capped = true;
-                        break;
-                    }
-                    let pl = p.len();
-                    let g = build(spec);
-                    let pr = match run_pair(&g, ca, cb, p.clone(), sb) {
-                        Ok(r) => r,
-                        Err(m) => {
-                            local.add_viol(ViolRec {
-                                prop: 20,
-                                msg: format!("two simultaneous runs: panic / divergence outside a step: {m}"),
-                                spec: spec.clone(),
-                                cfg: JobCfg::H(format!("simultaneous A=[{}] B=[{}]", ca.short(), cb.short()), detail("-")),
-                                choices: p.clone(),
-                                trace: vec![],
-                                result: String::new(),
-                            });
-                            continue;
-                        }
-                    };
-                    local.execs += 1;
-                    local.transitions += (pr.global.len() + 1 - pl.max(1)) as u64;
-                    local.max_depth = local.max_depth.max(pr.global.len() as u64);
-                    let key: Vec<u16> = pr.global.iter().map(|t| t.c).collect();
-                    let base_dev = crate::exec::deviations(&pr.global[..pl.min(pr.global.len())]);
-                    if devb.map(|d| base_dev + 1 <= d).unwrap_or(true) {
-                        for i in pl..pr.global.len() {
-                            for a in 0..pr.global[i].k {
-                                if a != pr.global[i].c {
-                                    let mut q = key[..i].to_vec();
-                                    q.push(a);
-                                    stack.push(q);
-                                }
-                            }
-                        }
-                    }
-                    let sig = hash64(&(pr.a.sig, pr.b.sig));
-                    sigs.insert(sig);
-                    if pr.overlapped {
-                        nontrivial.insert(sig);
-                        local.count("executions_where_both_runs_were_in_progress_at_once", 1);
-                    }
-                    local.max_deviations = local.max_deviations.max(pr.switches as u64);
-                    // differential oracle: each projection replayed alone on a fresh graph
-                    for (name, cfg, r) in [("A", ca, &pr.a), ("B", cb, &pr.b)] {
-                        let alone = solo(spec, cfg, r.choices.clone());
-                        local.recheck += 1;
-                        if alone.sig != r.sig {
-                            local.add_viol(ViolRec {
-                                prop: 20,
-                                msg: format!("run {name} behaves differently next to another run than alone under the same environment answers"),
-                                spec: spec.clone(),
-                                cfg: JobCfg::H(format!("simultaneous A=[{}] B=[{}]", ca.short(), cb.short()), detail(name)),
-                                choices: key.clone(),
-                                trace: vec![],
-                                result: format!("together: {} | alone: {}", r.text, alone.text),
-                            });
-                        }
-                    }
-                    if local.samples.len() < 2 && pr.overlapped && pr.switches >= 2 {
-                        local.samples.push(json!({"graph": spec.short(), "run_a": ca.short(), "run_b": cb.short(), "choices": key, "trace_a": pr.a.text, "trace_b": pr.b.text}));
-                    }
-                }
-                local.states += sigs.len() as u64;
-                local.distinct_traces += sigs.len() as u64;
-                local.nontrivial += nontrivial.len() as u64;
+                explore_multi(&specs[si], &[&cfgs[ai], &cfgs[bi]], sb, devb, true, deadline, local);
             },
             |l| st.merge(l),
         );
@@ -623,8 +796,63 @@ pub fn run_c20(tier: &str, deadline: Instant, total: &mut Stats, log: &mut Vec<V
         total.merge(st);
         if Instant::now() > deadline {
             total.capped = true;
-            break;
+            return;
         }
+    }
+    // three runs on larger graphs: A starts, another run starts and ends meanwhile, a third starts
+    // while A is still in progress (size thresholds, leases, per-graph scratch state)
+    {
+        use crate::graphs::{family_spec, Family};
+        // (functions, switch bound)
+        let plans: &[(usize, usize)] = if tier == "thorough" { &[(9, 3), (17, 2), (33, 2), (40, 1), (65, 1)] } else { &[(9, 2), (33, 1)] };
+        let ks: Vec<usize> = plans.iter().map(|p| p.0).collect();
+        let mut specs = vec![];
+        let mut bounds = vec![];
+        for &(k, sb) in plans {
+            for s in [family_spec(Family::Chain, k), family_spec(Family::Antichain, k), family_spec(Family::Comb, k / 2)] {
+                specs.push(s);
+                bounds.push(sb);
+            }
+        }
+        let mk = |kind: Kind, n: usize| {
+            let mut c = RunCfg::plain(Api { kind, mutable: false, with: true }, n);
+            c.imm_choice = false;
+            AnyCfg::S(c)
+        };
+        let mut items = vec![];
+        for s in 0..specs.len() {
+            for t in 0..3 {
+                items.push((s, t));
+            }
+        }
+        let t0 = Instant::now();
+        let mut st = Stats::default();
+        let specs_ref = &specs;
+        let bounds_ref = &bounds;
+        let capped = par_for(
+            items.len(),
+            deadline,
+            Stats::default,
+            |i, local: &mut Stats| {
+                let (si, t) = items[i];
+                let spec = &specs_ref[si];
+                let n = spec.n;
+                let triple: Vec<AnyCfg> = match t {
+                    0 => vec![mk(Kind::ForEach, n), mk(Kind::ForEach, n), mk(Kind::ForEach, n)],
+                    1 => vec![mk(Kind::Fold, n), mk(Kind::TryForEach, n), mk(Kind::ForEach, n)],
+                    _ => vec![mk(Kind::ForEach, n), AnyCfg::C(CCfg::plain(SApi::Stream)), mk(Kind::TryFold, n)],
+                };
+                let refs: Vec<&AnyCfg> = triple.iter().collect();
+                let sb = bounds_ref[si];
+                explore_multi(spec, &refs, sb, Some(sb + 1), false, deadline, local);
+            },
+            |l| st.merge(l),
+        );
+        st.capped |= capped;
+        let label = format!("three simultaneous &self runs on chains, antichains and combs of {ks:?} functions: every interleaving with <= {:?} switches respectively, each run on its eager schedule; a run starts when first chosen, a finished run hands over to the not-yet-started one by default", plans.iter().map(|p| p.1).collect::<Vec<_>>());
+        log.push(json!({"space": label, "interleavings": st.execs, "completed": !st.capped, "wall_s": t0.elapsed().as_secs_f64()}));
+        eprintln!("  [{label}] interleavings={} viol={} {}{:.1}s", st.execs, st.viol_total, if st.capped { "CAPPED " } else { "" }, t0.elapsed().as_secs_f64());
+        total.merge(st);
     }
 }
 
@@ -669,23 +897,29 @@ pub fn replay_h(prop: u8, spec: &Spec, detail: &Value, choices: &[u16]) -> i32 {
             }
         }
         20 => {
-            let (Some(ca), Some(cb)) = (any_from_json(&detail["a"]), any_from_json(&detail["b"])) else {
+            let runs: Vec<AnyCfg> = match detail["runs"].as_array() {
+                Some(a) => a.iter().filter_map(any_from_json).collect(),
+                None => vec![],
+            };
+            if runs.len() < 2 {
                 eprintln!("malformed C20 record");
                 return 2;
-            };
+            }
             let sb = detail["switch_bound"].as_u64().unwrap_or(64) as usize;
             let g = build(spec);
-            match run_pair(&g, &ca, &cb, choices.to_vec(), sb) {
+            let refs: Vec<&AnyCfg> = runs.iter().collect();
+            match run_multi(&g, &refs, choices.to_vec(), sb) {
                 Err(m) => {
                     println!("REPRODUCED C20: {m}");
                     1
                 }
-                Ok(pr) => {
+                Ok(mr) => {
                     let mut bad = false;
-                    for (name, cfg, r) in [("A", &ca, &pr.a), ("B", &cb, &pr.b)] {
-                        let alone = solo(spec, cfg, r.choices.clone());
-                        println!("run {name} next to the other run: {}", r.text);
-                        println!("run {name} alone, same answers   : {}", alone.text);
+                    for (i, r) in mr.sides.iter().enumerate() {
+                        let name = (b'A' + i as u8) as char;
+                        let alone = solo(spec, &runs[i], r.choices.clone());
+                        println!("run {name} next to the other run(s): {}", r.text);
+                        println!("run {name} alone, same answers      : {}", alone.text);
                         if alone.sig != r.sig {
                             bad = true;
                         }
